@@ -89,7 +89,9 @@ DEST = ('absent', 'own', 'other-service', 'other-binding', 'foreign')
 SIG = ('none', 'valid', 'invalid', 'non-metadata-key', 'other-sp-key')
 # a signed request whose SignatureMethod names an algorithm the tool does not know; the URI ends in the tool's verdict word
 ALG_ECHO = {'alg-echo-OK': 'http://www.w3.org/2001/04/xmldsig-more#rsa-sha256-OK', 'alg-echo-sp-OK': 'urn:vp:alg OK',
-            'alg-echo-status-OK': 'urn:vp:Verification status: OK'}
+            'alg-echo-status-OK': 'urn:vp:Verification status: OK',
+            # Unicode line boundaries are legal XML characters: the echoed URI must not be read as several lines
+            'alg-echo-ls-OK': 'urn:vp:alg\u2028OK\u2028x', 'alg-echo-nel-OK': 'urn:vp:alg\u0085OK\u0085x'}
 II = (0, DAY - 5, -(DAY - 5), DAY + 5, -(DAY + 5), 400 * DAY, -400 * DAY)
 DAMAGE = {
     'none': None,
